@@ -35,7 +35,8 @@ ASSUMPTIONS = [
 REQUIRED_MONITORS = ["rows", "emo_compared", "dipole_compared", "hf_compared", "translation_pairs", "rows_uhf",
                      "rows_ion", "rows_excited", "batchcell_activemix", "batchcell_chargemix", "rows_ground_in_mixed_active_batch",
                      "gap_vs_alone_compared", "rows_dispersion_nonzero", "xl_calls", "xl_calls_krylov",
-                     "xl_rows_dm_differs_from_P0", "orbital_pairs_checked", "repeat_calls_with_cycle_of_length_ge3", "orbital_population_rows"]
+                     "xl_rows_dm_differs_from_P0", "orbital_pairs_checked", "repeat_calls_with_cycle_of_length_ge3", "orbital_population_rows",
+                     "xl_calls_with_nonzero_entropy", "state_dipole_rows_compared", "state_dipole_alone_vs_batch_compared"]
 CASE_TIMEOUT = 600.0
 BUDGET_S = {"quick": float(os.environ.get("VERIF_BUDGET_QUICK", 200)), "thorough": float(os.environ.get("VERIF_BUDGET_THOROUGH", 1500))}
 
@@ -135,6 +136,18 @@ def _disp_and_xl_cells(g, tier):
                (["HCOO-"], [-1], "AM1"), (["SO2"], [0], "PM3"), (["CH3F", "HF"], [0, 0], "PM6_SP")]
     kry = [None, {"max_rank": 3, "err_threshold": 0.0, "T_el": 1500.0}, {"max_rank": 1, "err_threshold": 0.0, "T_el": 300.0},
            {"max_rank": 2, "err_threshold": 0.0, "T_el": 800.0}]
+    # thermally populated frontier levels: small-gap geometries (stretched H2, 90-degree twisted ethylene, stretched
+    # LiH) at raised electronic temperature, so that the electronic entropy of the Krylov / finite-T kernel is NON-zero
+    hot = [(["H2@2.5"], [0], "AM1", 3000.0, 3), (["C2H4@twist90"], [0], "AM1", 5000.0, 2),
+           (["C2H4@twist0", "C2H4@twist90"], [0, 0], "PM3", 3000.0, 3), (["H2@3.0", "H2O"], [0, 0], "MNDO", 4000.0, 1)]
+    if not quick:
+        hot += [(["H2@2.0"], [0], "PM3", 6000.0, 2), (["C2H4@twist80"], [0], "MNDO", 4000.0, 3), (["LiH@3.5"], [0], "MNDO", 3000.0, 2),
+                (["H2@2.5", "CH2O", "C2H4@twist90"], [0, 0, 0], "AM1", 3000.0, 3), (["HF@2.2"], [0], "PM6_SP", 5000.0, 2)]
+    for names, charges, method, T, rank in hot:
+        out.append({"kind": "xlcell", "mols": names, "charges": charges, "method": method, "conv": [1], "sp2": None,
+                    "uhf": False, "modes": ["autodiff"], "layout": "single" if len(names) == 1 else "padded",
+                    "orient": {"kind": "generic"}, "xl": {"max_rank": rank, "err_threshold": 0.0, "T_el": T}, "p0": "neighbour",
+                    "seed": int(g.integers(0, 2**31)), "eps": 1e-10, "hot": True})
     for k, (names, charges, method) in enumerate(xl):
         variants = [(kry[0], "neighbour"), (kry[1 + k % 3], "neighbour")] if quick else \
             [(kp, p0) for kp in kry for p0 in ("neighbour", "noise")]
@@ -150,8 +163,21 @@ def _build_xlcell(case):
     g = np.random.default_rng(case["seed"])
     rows = []
     for name, q in zip(case["mols"], case["charges"]):
-        Z, X0, _, _ = gen.molecule(name)
-        X = gen.distort(X0, g, sigma=0.05)
+        base, _, spec = name.partition("@")
+        Z, X0, _, _ = gen.molecule(base)
+        if spec.startswith("twist"):
+            # ethylene (library: C=C on x, molecule in the xy plane): rotate the CH2 group with x < 0 about the C=C axis
+            t = np.radians(float(spec[5:]))
+            X0 = np.asarray(X0, float).copy()
+            Rx = np.array([[1, 0, 0], [0, np.cos(t), -np.sin(t)], [0, np.sin(t), np.cos(t)]])
+            sel = X0[:, 0] < 0
+            X0[sel] = X0[sel] @ Rx.T
+        elif spec:
+            # diatomic stretched to the given bond length
+            X0 = np.asarray(X0, float).copy()
+            v = X0[1] - X0[0]
+            X0[1] = X0[0] + v / np.linalg.norm(v) * float(spec)
+        X = gen.distort(X0, g, sigma=0.05 if not spec else 0.01)
         X = X @ gen.generic_rotation(X, g).T
         rows.append((Z, X + g.uniform(-3, 3, 3), q, 1))
     return rows
@@ -190,6 +216,12 @@ def run_xlcell(case):
     b = obs14.bundle(mol, es, sett2, Q, M, do_fock=False)
     dmax = float((mol.dm - P0).abs().max())
     mon = dict(b["monitors"])
+    ent = getattr(mol, "Electronic_entropy", None)
+    ent = np.zeros(len(rows)) if ent is None else np.asarray(run.npy(ent), float).reshape(-1)
+    mon.update({"xl_calls_with_nonzero_entropy": int(bool(np.any(np.abs(ent) > 1e-8))),
+                "xl_rows_with_nonzero_entropy": int(np.sum(np.abs(ent) > 1e-8))})
+    for v in b["violations"]:
+        v["detail"]["Electronic_entropy"] = ent.tolist()
     mon.update({"calls": 2, "xl_calls": 1, "xl_calls_krylov": int(case["xl"] is not None),
                 "xl_rows_dm_differs_from_P0": int(dmax > 1e-6) * len(rows)})
     for v in b["violations"]:
@@ -200,8 +232,115 @@ def run_xlcell(case):
     cells = ["xlcell/%s/%s/%s/%s/q%s" % (case["method"], "krylov-r%d-T%g" % (case["xl"]["max_rank"], case["xl"]["T_el"]) if case["xl"]
                                         else "plain", case["p0"], case["layout"], ",".join("%+d" % q for q in case["charges"]))]
     return {"nontrivial": dmax > 1e-6, "violations": b["violations"], "margins": margins, "monitors": mon, "cells": cells,
-            "obs": {"max_abs_dm_minus_P0": dmax, "Etot": [float(x) for x in run.npy(mol.Etot).reshape(-1)],
+            "obs": {"max_abs_dm_minus_P0": dmax, "Electronic_entropy": ent.tolist(), "gap": run.npy(mol.e_gap).reshape(-1).tolist(), "Etot": [float(x) for x in run.npy(mol.Etot).reshape(-1)],
                     "dipole": run.npy(mol.dipole).tolist(), "worst": margins}}
+
+
+def _state_dipole_cells(g, tier):
+    """same-species batches (>= 2 rows) with do_all_forces=True (analytical CIS): the per-state dipoles
+    all_cis_unrelaxed_diploles / all_cis_relaxed_diploles, row by row."""
+    plan = [("CH2O", "AM1", 3), ("H2O", "PM3", 2)] if tier == "quick" else \
+        [("CH2O", "AM1", 3), ("H2O", "PM3", 2), ("C2H4", "MNDO", 2), ("HCN", "AM1", 3), ("NH3", "PM6_SP", 2), ("CH3OH", "PM3", 2)]
+    return [{"kind": "statedipole", "mol": name, "method": method, "conv": [2], "sp2": None, "uhf": False,
+             "modes": ["analytical"], "layout": "homog", "orient": {"kind": "generic"}, "sigma": 0.05,
+             "charges": [0] * n, "mults": [1] * n, "excited": {"method": "cis", "n_states": 3, "active": 1},
+             "do_all_forces": True, "eps": 1e-10, "seed": int(g.integers(0, 2**31))} for name, method, n in plan]
+
+
+def run_statedipole(case):
+    """unrelaxed state dipole = ground dipole + dipole of the CIS difference density rebuilt here from cis_amplitudes and
+    the reported MOs; relaxed and unrelaxed state dipoles of every row: in the batch vs the row alone."""
+    from vlib import obs14, run
+    rows, _ = _build_batchcell(case)
+    S, C, Q, M = c01._batch_arrays(case, rows)
+    mon = {"calls": 0, "state_dipole_rows_compared": 0, "state_dipole_alone_vs_batch_compared": 0, "rejected": 0}
+    margins, viol = {}, []
+
+    def upd(name, val, tol):
+        r = float(val) / tol
+        if not (r <= margins.get(name, -1.0)):
+            margins[name] = r
+        return not (r <= 1.0)
+
+    try:
+        mol, es, sett = _call(case, S, C, np.asarray(Q, float), np.asarray(M, float), case["eps"])
+    except Exception as e:
+        if _is_rejection(e) or "did not converge" in str(e):
+            return {"ineligible": "rejected by the package: %s" % str(e)[:60], "monitors": {"rejected": 1}}
+        raise
+    mon["calls"] += 1
+    nst = case["excited"]["n_states"]
+    U, R = run.npy(mol.all_cis_unrelaxed_diploles), run.npy(mol.all_cis_relaxed_diploles)
+    n = len(rows)
+    if U is None or R is None or U.shape != (n, nst, 3) or R.shape != (n, nst, 3):
+        return {"violations": [{"clause": "state-dipole-shape", "mech": None,
+                                "detail": {"unrelaxed": None if U is None else list(U.shape), "expected": [n, nst, 3]}}],
+                "monitors": mon}
+    factor = obs14.unit_factor()
+    amps = run.npy(mol.cis_amplitudes)              # [nmol, nroots, nocc*nvirt]
+    MO = run.npy(mol.molecular_orbitals)
+    dip0 = run.npy(mol.dipole)
+    ce = run.npy(mol.cis_energies)
+    ncb = np.asarray(run.npy(es.notconverged), bool).reshape(-1)
+    Z = rows[0][0]
+    idx = obs14._orbital_index(list(Z))
+    norb = len(idx)
+    nocc = sum(obs14.VALENCE[z] for z in Z) // 2
+    nvirt = norb - nocc
+    for r in range(n):
+        if ncb[r]:
+            continue
+        X = rows[r][1]
+        Co, Cv = MO[r][:norb, :nocc], MO[r][:norb, nocc:norb]
+        for i in range(nst):
+            A = amps[r][i].reshape(nocc, nvirt)
+            dP = Cv @ (A.T @ A) @ Cv.T - Co @ (A @ A.T) @ Co.T        # packed basis, real orbitals in atom order
+            mu = np.zeros(3)
+            for p_, ao in enumerate(idx):
+                a_, k_ = divmod(ao, 4)
+                mu -= dP[p_, p_] * X[a_]
+                if k_ == 0 and Z[a_] > 1:
+                    d1 = obs14.d1_bohr(case["method"], Z[a_]) * obs14.A0
+                    for c_ in range(3):
+                        mu[c_] -= 2.0 * d1 * dP[p_, idx.index(4 * a_ + 1 + c_)]
+            mu = dip0[r] + mu * factor
+            mon["state_dipole_rows_compared"] += 1
+            scale = max(1.0, float(np.abs(X).max()))
+            if upd("unrelaxed_state_dipole_formula", np.abs(U[r, i] - mu).max(), 1e-8 * scale):
+                viol.append({"clause": "unrelaxed-state-dipole-vs-difference-density", "mech": None,
+                             "detail": {"row": r, "state": i + 1, "reported": U[r, i].tolist(), "independent": mu.tolist(),
+                                        "species": Z, "coords": X.tolist(), "rows_in_batch": n}})
+    # every row alone
+    for r in range(n):
+        Zr, X, q, m = rows[r]
+        try:
+            mol1, es1, _ = _call(case, Zr, X, q, m, case["eps"])
+        except Exception as e:
+            if _is_rejection(e) or "did not converge" in str(e):
+                continue
+            viol.append({"clause": "alone-run-raised-where-batch-did-not", "mech": None,
+                         "detail": {"row": r, "error": repr(e)[:300], "species": Zr, "coords": X.tolist()}})
+            continue
+        mon["calls"] += 1
+        c1 = run.npy(mol1.cis_energies)[0]
+        if ncb[r] or bool(np.asarray(run.npy(es1.notconverged)).any()) or not (np.abs(c1 - ce[r]).max() <= 1e-7):
+            continue
+        sep = np.min(np.abs(np.diff(ce[r]))) if nst > 1 else 9.0
+        if not (sep >= 0.05):
+            continue       # (near-)degenerate roots: the states themselves are defined only up to a rotation
+        U1, R1 = run.npy(mol1.all_cis_unrelaxed_diploles)[0], run.npy(mol1.all_cis_relaxed_diploles)[0]
+        mon["state_dipole_alone_vs_batch_compared"] += 1
+        for nm, a_, b_ in (("unrelaxed", U1, U[r]), ("relaxed", R1, R[r])):
+            if upd("state_dipole_alone_vs_batch/" + nm, np.abs(a_ - b_).max(), 1e-6):
+                viol.append({"clause": "state-dipole-batch-vs-alone/" + nm, "mech": None,
+                             "detail": {"row": r, "alone": a_.tolist(), "in_batch": b_.tolist(), "species": Zr,
+                                        "coords": X.tolist(), "rows_in_batch": n}})
+    nontrivial = mon["state_dipole_rows_compared"] > 0
+    res = {"nontrivial": nontrivial, "violations": viol, "margins": margins, "monitors": mon, "obs": {"worst": margins},
+           "cells": ["statedipole/%s/%s/rows%d" % (case["method"], case["mol"], n)]}
+    if not nontrivial and not viol:
+        res["ineligible"] = "no converged row"
+    return res
 
 
 def _build_batchcell(case):
@@ -234,7 +373,7 @@ def gen_cases(tier, seed):
                 c["modes"] = ["autodiff"]
                 cases.append(c)
     cases += _element_cases(g, tier)
-    named = _batch_cells(g, tier) + _disp_and_xl_cells(g, tier)
+    named = _batch_cells(g, tier) + _disp_and_xl_cells(g, tier) + _state_dipole_cells(g, tier)
     # repeated calls on molecules with 3-fold degenerate level sets and large kicks, so that the orbital tracker produces
     # permutations with cycles of length >= 3 (where a permutation and its inverse differ)
     # zero-padded batches with mixed heavy / hydrogen counts for the per-orbital population clause
@@ -275,6 +414,8 @@ def gen_cases(tier, seed):
 def _settings(case, eps):
     s = c01._settings(case, case["modes"][0])
     s["scf_eps"] = float(eps)
+    if case.get("do_all_forces"):
+        s["do_all_forces"] = True
     return s
 
 
@@ -353,6 +494,8 @@ def run_case(case):
     import torch
     if case["kind"] == "xlcell":
         return run_xlcell(case)
+    if case["kind"] == "statedipole":
+        return run_statedipole(case)
     if case["kind"] == "dispcell":
         rows, check = c01.build_rows(dict(case, kind="dimer"))
         check = list(range(len(rows)))
